@@ -332,7 +332,9 @@ func runC19(r *Runner, tier string, rng *Rng) {
 		algL := []string{"sha256", "sha512"}
 		if rng.Chance(35) {
 			schemeS = rng.Pick([]string{defaultScheme[kd.kind], defaultScheme[kd.kind], "ecdsa-sha2-nistp384", "ed25519", "rsassa-pss-sha256", "foo", ""})
-			algL = [][]string{{"sha256", "sha512"}, {"sha256"}, {"sha512"}, {"md5"}, {}}[rng.Intn(5)]
+			// (the list is part of the key's description AS GIVEN: its order is content - lists that are
+			// not in ascending order, seeded change c19-keyid-over-sorted-algorithms)
+			algL = [][]string{{"sha256", "sha512"}, {"sha256"}, {"sha512"}, {"md5"}, {}, {"sha512", "sha256"}, {"sha512", "sha256"}, {"sha512", "sha384", "sha256"}}[rng.Intn(8)]
 			scheme = schemeS
 			al := []any{}
 			for _, x := range algL {
